@@ -15,7 +15,7 @@ META = {
     "shards": {"quick": 8, "thorough": 4},
     "bounds": {
         "quick": "families F-unit(K<=5, type pairs at arity 2,3) + F-shape + F-bb + F-cyc + aux-name collision circuits + 30 seeded random DAGs (<=12 gates, arity<=5); for each: ALL node valuations and ALL aux-variable values (2QBF); solve(): empty, every single literal (<=40 nodes), solver-generated consistent/inconsistent total and partial assignments, non-node key",
-        "thorough": "same + 300 random DAGs (<=24 gates) + bundled c17/s27/c432/c499 netlists, 8 hash seeds",
+        "thorough": "same + every circuit with 2 inputs and <=2 gates (1078, all 8 types, every fan-in subset) + 300 random DAGs (<=24 gates) + bundled c17/s27/c432/c499 netlists, 8 hash seeds",
     },
     "outside": ["circuits outside the families", "constant x (cnf rejects it with ValueError)", "real python-sat (z3-backed stand-in with the same IDPool/CNF/model API)", "hash seeds not listed"],
     "assumptions": ["sem.py gate table is the specification", "pysat stand-in is API-faithful (IDPool numbering, CNF.nv, model length)", "z3 5.1.0 sound"],
@@ -48,6 +48,7 @@ def all_cases(ctx):
     else:
         cs += F.f_rand(ctx.seed, 300, n_gates=None) + [(("rand24", ctx.seed, i), F.rand_dag(random.Random(f"c01-24-{ctx.seed}-{i}"), n_in=random.Random(i).randint(2, 6), n_gates=24, name=f"r24_{i}")) for i in range(60)]
         cs += [(("lib", n), ("lib", n)) for n in ("c17", "s27", "c432", "c499")]
+        cs += F.f_small(2)  # EVERY circuit with 2 inputs and <= 2 gates
     return cs
 
 
